@@ -92,9 +92,13 @@ def gen_requests(rng, n_per_codec, codecs=(RS28, RS2M, LDPC), big=False):
                 around = k + rng.choice([-2, -1, 0, 0, 1, 1, 2, 3, 4, r // 2, r])
             esis = rand_esis(rng, k, n, around)
             api = rng.below(2)
-            if rng.chance(1, 10):
-                api = 3          # the table API called twice with cumulative tables
-            if api in (1, 3):
+            if rng.chance(1, 6):
+                # the table API called twice with cumulative tables, or a table followed by single submissions.  NOT generated: single
+                # submissions followed by a table (api 4 of the driver) - the API documentation excludes it ("This function should not be
+                # used when the application uses of_decode_with_new_symbol()"), and on the RS codecs a table installed after the decoding
+                # has completed replaces the decoded entries
+                api = rng.choice([3, 5])
+            if api in (1, 3, 4, 5):
                 esis = sorted(set(esis)) if api == 1 else list(dict.fromkeys(esis))
             reqs.append(Req(codec, k, r, L, p1, p2, api, rng.below(4), rng.choice([0, 1, 1]), rng.choice([2, 2, 2, 3, 4, 5] if codec in (RS28, RS2M) else [2, 2, 2, 3, 4]),
                             esis, pseed=rng.below(10 ** 9)))
@@ -123,22 +127,35 @@ def oracles(q, a):
     src_first_unknown = set()   # sources submitted while still unavailable
     prev_complete = 0
     prev_mask = "0" * k
+    # what each reported call submitted: ("one", esi) or ("table", [esis]) - api 0: one call per ESI; 1: one table; 3: two cumulative tables;
+    # 4: the first half one by one, then a table with everything; 5: a table with the first half, then the rest one by one; 2: like 0, reported once
+    h = len(q.esis) // 2
+    if q.api == 0:
+        plan = [("one", e) for e in q.esis]
+    elif q.api == 3:
+        plan = [("table", q.esis[:h]), ("table", q.esis)]
+    elif q.api == 4:
+        plan = [("one", e) for e in q.esis[:h]] + [("table", q.esis)]
+    elif q.api == 5:
+        plan = [("table", q.esis[:h])] + [("one", e) for e in q.esis[h:]]
+    else:
+        plan = [("table", q.esis)]
     for j, (st, comp, sm, rm) in enumerate(a.steps):
-        if q.api == 0:
-            e = q.esis[j]
+        kind, what = plan[j] if j < len(plan) else ("table", q.esis)
+        if kind == "one":
+            e = what
             if e < k and prev_mask[e] == "0":
                 src_first_unknown.add(e)
             if e not in recv:
                 recv.append(e)
         else:
-            cur = q.esis[:len(q.esis) // 2] if (q.api == 3 and j == 0) else q.esis      # api 3: two cumulative tables
-            # LDPC/2D walk the table in increasing ESI order and decode on the way: in a SECOND table call, repair symbols are already
-            # known, so a source of the table may be rebuilt before the walk reaches it - which ones cannot be told from outside
-            if not (q.api == 3 and j >= 1 and q.codec in (LDPC, P2D)):
-                for e in cur:
+            # LDPC/2D walk the table in increasing ESI order and decode on the way: once repair symbols are known (any earlier call), a
+            # source of the table may be rebuilt before the walk reaches it - which ones cannot be told from outside
+            if not (j >= 1 and q.codec in (LDPC, P2D)):
+                for e in what:
                     if e < k and prev_mask[e] == "0":
                         src_first_unknown.add(e)
-            recv = sorted(set(cur))
+            recv = sorted(set(recv) | set(what)) if q.codec in (LDPC, P2D) else sorted(set(what))
         if st != 0:
             out.append(("C10", "submit-status", "submission call %d returned status %d" % (j, st)))
         if "!" in sm:
